@@ -50,6 +50,8 @@ pub struct WorldAdapters {
     pub gate: Arc<Semaphore>,
     /// these discovery calls (by index) fail once they are let through
     pub fail_calls: Vec<usize>,
+    /// every discovery call finds other servers (identifiers and addresses carry the call's index)
+    pub vary_by_call: bool,
     calls: AtomicUsize,
 }
 
@@ -61,7 +63,7 @@ impl std::fmt::Debug for WorldAdapters {
 
 impl WorldAdapters {
     pub fn new(fail_calls: Vec<usize>) -> Self {
-        Self { log: Arc::new(Mutex::new(WorldLog::default())), gate: Arc::new(Semaphore::new(0)), fail_calls, calls: AtomicUsize::new(0) }
+        Self { log: Arc::new(Mutex::new(WorldLog::default())), gate: Arc::new(Semaphore::new(0)), fail_calls, vary_by_call: false, calls: AtomicUsize::new(0) }
     }
 }
 
@@ -77,6 +79,11 @@ pub fn world_targets() -> Vec<Target> {
         Target { identifier: "w-beta".into(), address: "10.77.0.2:25566".parse().unwrap(), meta: Default::default() },
         Target { identifier: "w-gamma".into(), address: "[fd00:77::3]:25567".parse().unwrap(), meta: Default::default() },
     ]
+}
+
+/// what the n-th discovery call finds when every call finds other servers
+pub fn targets_of_call(n: usize) -> Vec<Target> {
+    (0..3).map(|k| Target { identifier: format!("call{n}-{k}"), address: format!("10.88.{}.{}:{}", n % 250, k + 1, 25_565 + k).parse().unwrap(), meta: Default::default() }).collect()
 }
 
 /// the strategy's rule: by the last letter of the player's name
@@ -119,7 +126,7 @@ impl DiscoveryAdapter for WorldAdapters {
             self.log.lock().unwrap().discovered.push(None);
             return Err(passage_adapters::Error::FailedFetch { adapter_type: "verif", cause: "the discovery backend fails on purpose".into() });
         }
-        let t = world_targets();
+        let t = if self.vary_by_call { targets_of_call(n) } else { world_targets() };
         self.log.lock().unwrap().discovered.push(Some(t.iter().map(|t| t.identifier.clone()).collect()));
         Ok(t)
     }
@@ -1005,6 +1012,13 @@ pub fn host(rep: &common::Report, prop: &str, thorough: bool) {
             visit(&Situation { cfg: cfg.clone(), plans: vec![p.clone()], schedule: solo_schedule(&p), out, alone: vec![again] });
         }
     }
+    if prop == "C03" {
+        let (logins, viols) = discovery_over_time();
+        for (k, t, replay) in viols {
+            rep.violation(common::Violation { key: k, text: t, replay, weight: 6_200_000 });
+        }
+        rep.set("world_logins_while_discovery_changes_and_fails", json!(logins));
+    }
     let (jobs, runs) = explore_pairs(bound, &cfgs, &visit);
     let stops = explore_stops(&visit);
     rep.require("stage-wise schedules of two clients against the real Listener", runs, 300);
@@ -1087,4 +1101,65 @@ pub fn crowd_kept_alive(n: usize) -> (u64, Vec<(String, String, Value)>) {
         let _ = tokio::time::timeout(Duration::from_secs(3), running.done).await;
     });
     (n as u64, out.into_inner().unwrap())
+}
+
+/// C03 over time: logins one after the other on one listener while every discovery call finds other servers and some
+/// calls fail. Every login consults discovery itself; the filters are offered exactly what that call returned; the
+/// player is transferred to the strategy's choice among them - or, when the call failed, not at all. What an earlier
+/// login found, or that an earlier call failed, changes nothing for a later one.
+pub fn discovery_over_time() -> (u64, Vec<(String, String, Value)>) {
+    let mut out = vec![];
+    let mut n = 0u64;
+    for failing in [vec![], vec![0usize], vec![1], vec![2], vec![1, 2], vec![0, 1, 2], vec![0, 2]] {
+        let label = format!("five logins one after the other, every discovery call finds other servers, calls {failing:?} fail");
+        let v: Vec<(String, String)> = run_local(async {
+            let mut v = vec![];
+            let mut adapters = WorldAdapters::new(failing.clone());
+            adapters.vary_by_call = true;
+            adapters.gate.add_permits(1_000);
+            let adapters = Arc::new(adapters);
+            let log = adapters.log.clone();
+            let running = start_listener_with(&ListenerCfg { timeout: Duration::from_secs(20), ..Default::default() }, adapters).await;
+            for i in 0..5usize {
+                let name = format!("Seq{i}");
+                let calls_before = log.lock().unwrap().discovered.len();
+                let Ok(mut c) = McClient::connect(running.addr, Some("127.0.0.5".parse().unwrap())).await else { continue };
+                let p = LoginParams { name: name.clone(), uuid: 0x5e00 + i as u128, wait: Duration::from_millis(1500), ..Default::default() };
+                let mut o = LoginOutcome { packets: vec![], stage: Stage::Connected, error: None };
+                c.login(&p, Stage::Connected, Stage::Transferred, &mut o).await;
+                let l = log.lock().unwrap().clone();
+                let new_calls = &l.discovered[calls_before.min(l.discovered.len())..];
+                let went = o.packets.iter().find_map(|p| if let Pkt::Transfer { host, port } = p { Some((host.parse::<IpAddr>().ok(), *port)) } else { None });
+                let offered: Option<Vec<String>> = l.filtered.iter().rev().find(|(who, _)| *who == vouched(&name)).map(|(_, o)| o.clone());
+                if new_calls.len() != 1 {
+                    v.push(("world:discovery-not-consulted-for-this-login".into(), format!("login #{i}: {} discovery calls were made for it (the filters were offered {offered:?}, the player was sent to {went:?})", new_calls.len())));
+                    continue;
+                }
+                match &new_calls[0] {
+                    None => {
+                        if went.is_some() || offered.is_some() {
+                            v.push(("world:transfer-without-a-discovery-result".into(), format!("login #{i}: its discovery call failed, yet the filters were offered {offered:?} and the player was sent to {went:?}")));
+                        }
+                    }
+                    Some(found) => {
+                        let call = calls_before;
+                        let want = world_choice(&vouched(&name), &targets_of_call(call)).expect("target");
+                        if offered.as_ref() != Some(found) {
+                            v.push(("world:filters-offered-what-discovery-never-returned".into(), format!("login #{i}: its discovery call returned {found:?}, the filters were offered {offered:?}")));
+                        } else if went != Some((Some(want.address.ip()), want.address.port() as i32)) {
+                            v.push(("world:transfer-is-not-the-strategys-choice".into(), format!("login #{i}: discovery returned {found:?}, the strategy chose {}, the player was sent to {went:?} (stage {:?}, error {:?})", want.address, o.stage, o.error)));
+                        }
+                    }
+                }
+            }
+            running.stop.cancel();
+            let _ = tokio::time::timeout(Duration::from_secs(2), running.done).await;
+            v
+        });
+        n += 5;
+        for (k, t) in v {
+            out.push((k, format!("{label}: {t}"), json!({"world": {"discovery_over_time": failing}})));
+        }
+    }
+    (n, out)
 }
